@@ -213,15 +213,24 @@ def generate(rng, tier, shard, nshards, mon):
     for _ in range(nrand):
         r = rng.random()
         if r < 0.46:
-            yield _rand_single(rng)
+            yield _with_earlier_run(rng, _rand_single(rng))
         elif r < 0.64:
-            yield _rand_multi(rng)
+            yield _with_earlier_run(rng, _rand_multi(rng))
         elif r < 0.76:
             yield _rand_filter(rng)
         elif r < 0.86:
             yield _rand_combine(rng)
         else:
             yield _rand_kernel(rng)
+
+
+def _with_earlier_run(rng, case):
+    """In 25% of the random model cases the call under test is not the first thing that happened at these paths: an
+    earlier run of the kernel had left other traces there and a model call on them was refused (see
+    _refused_call_first).  The value is the seed the earlier traces are derived from."""
+    if rng.random() < 0.25:
+        case["earlier"] = rng.randrange(1 << 30)
+    return case
 
 
 def _growth_strings(length, k):
@@ -773,7 +782,9 @@ def _listing(d):
 
 def _call(mon, which, fn, tmp, keep):
     """Run one library call; -> (ok, result).  Cleans leftovers so that later calls start clean."""
-    before = _listing(tmp)
+    # what has to be there afterwards: the trace files (leftovers of an earlier, refused call - they carry the names
+    # of this call's own temporaries - are temporaries like all others)
+    before = [f for f in _listing(tmp) if f in keep]
     try:
         res = fn()
     except BaseException as e:      # noqa - the library asserts / exits on some paths
@@ -1013,6 +1024,55 @@ def _dictionary_order_again(mon, which, fn, bindings, ctx, place, xfirst, dorder
               f"{which} reported {first} and, with the same trace dictionary listed {[k[2:] for k in alt]}, {again}")
 
 
+AFTER_REFUSED = ":first-call-after-a-refused-call-on-an-earlier-trace"
+
+
+def _refused_call_first(case, ctx, mon, prng, fn, extra, tmp, line_sz, inf_bits, loop_ranks):
+    """History before the call under test: an earlier run of the kernel wrote other (well-formed) traces to the very
+    paths of this run, a model call on them was refused because the type of one binding does not fit the layout of
+    its rank (not a well-formed binding: nothing about that call is judged, whatever it does), then the kernel was
+    run again, i.e. the trace files are rewritten with the rows of this case.  Nothing is cleaned up in between.  The
+    statement speaks about `given traces`: what the next call charges is a function of the files as they are now.
+    -> did the refused call raise and leave files behind?"""
+    inv = {v: k for k, v in (case.get("rename") or {}).items()}
+
+    def write(rows_of):
+        for i, b in enumerate(case["bindings"]):
+            for acc_name in ("read", "write"):
+                rows = b[acc_name + "s"]
+                if rows is not None:
+                    path = ctx["traces"][(b["tensor"], inv.get(b["rank"], b["rank"]), b["type"], acc_name)]
+                    _write_trace(path, case["order"][:b["n"]], rows_of(b, rows))
+
+    def earlier(b, rows):
+        # the earlier run: some of the iterations, other positions (anywhere in the rank)
+        t = case["tensors"][b["tensor"]]
+        shape = max(1, t["shape"][t["ranks"].index(b["rank"])])
+        out = []
+        for r in rows:
+            if prng.random() < 0.7:
+                pos = prng.randrange(shape)
+                out.append(list(r[:2 * b["n"] - 1]) + [pos, pos])
+        return out
+    write(earlier)
+    bindings = [dict(b, **extra) for b in ctx["bind"]]
+    j = prng.randrange(len(bindings))
+    bindings[j]["type"] = prng.choice(["payload", "coord"]) if bindings[j]["type"] == "elem" else "elem"
+    ident = {i: i for i in range(len(bindings))}
+    refused = False
+    try:
+        fn(bindings, ctx["formats"], _trace_dict(ctx, ident, 0), inf_bits, line_sz, loop_ranks=loop_ranks)
+    except BaseException as e:      # noqa
+        if isinstance(e, KeyboardInterrupt):
+            raise
+        refused = True
+    left = [f for f in _listing(tmp) if f not in ctx["keep"]]
+    write(lambda b, rows: rows)
+    if refused:
+        mon.count("refused_calls_on_earlier_traces")
+    return refused and bool(left)
+
+
 def _run_model_case(case, mon, tmp, files=None, tagx=""):
     line_sz = case["line_sz"]
     order = case["order"]
@@ -1056,6 +1116,17 @@ def _run_model_case(case, mon, tmp, files=None, tagx=""):
     if alike_reused:
         mon.count("cases_with_reused_lines_alike_as_text")
     calls_before = mon.counters["model_calls"]
+    # an earlier run of the kernel at the same paths and a refused model call on it precede some of the calls
+    hist = [""]
+    hrng = None
+    if case.get("earlier") is not None and files is None:
+        import random
+        hrng = random.Random(case["earlier"])
+
+    def history(fn, extra):
+        if _refused_call_first(case, ctx, mon, hrng, fn, extra, tmp, line_sz, inf_bits, loop_ranks()):
+            hist[0] = AFTER_REFUSED
+            mon.count("calls_after_a_refused_call_that_left_files")
 
     def loop_ranks():
         return dict(case["rename"]) if case.get("rename") else None
@@ -1071,8 +1142,8 @@ def _run_model_case(case, mon, tmp, files=None, tagx=""):
         def keyfn(which, kind, failure, extra=""):
             """violation class = operation + clause + failure kind (+ input class)"""
             if kind == "writebacks" and foreign:
-                return f"{which}:writebacks{ftag}{tag}"
-            return f"{which}:{kind}:{failure}{tag}{extra}"
+                return f"{which}:writebacks{ftag}{tag}{hist[0]}"
+            return f"{which}:{kind}:{failure}{tag}{extra}{hist[0]}"
 
         place = {i: k for k, i in enumerate(listing)}
         xfirst = (capform + lno) % 2
@@ -1108,6 +1179,9 @@ def _run_model_case(case, mon, tmp, files=None, tagx=""):
                     cj = case["buffet"]["caps"].index(cap)
                     cap_bits, _ = _capacity(mon, cap, line_sz, inf_bits, capform + cj)
                     tdn, dorder = tdict(eno)
+                    hist[0] = ""
+                    if hrng is not None and full and cj == 0:
+                        history(Traffic.buffetTraffic, {"evict-on": "root"})
                     ok, res = _call(mon, "buffetTraffic",
                                     lambda: Traffic.buffetTraffic(bindings, ctx["formats"], dict(tdn), cap_bits,
                                                                   line_sz, loop_ranks=loop_ranks()), tmp, ctx["keep"])
@@ -1118,12 +1192,12 @@ def _run_model_case(case, mon, tmp, files=None, tagx=""):
                     if ctx["xtraces"]:
                         mon.count("calls_with_unbound_trace_entries")
                     if not ok:
-                        mon.violation(f"buffetTraffic:raised:{type(res).__name__}{ftag}{tag}",
+                        mon.violation(f"buffetTraffic:raised:{type(res).__name__}{ftag}{tag}{hist[0]}",
                                       f"buffetTraffic raised {type(res).__name__}: {res} (evict-on {evict}, capacity "
                                       f"{cap_bits!r} bits, bindings listed {listing})")
                         continue
                     got, overflows = res
-                    got = _settle_unbound(mon, "buffetTraffic", got, ctx, tag)
+                    got = _settle_unbound(mon, "buffetTraffic", got, ctx, tag + hist[0])
                     if full:
                         results.append(("buffet", evict, cap, cap_bits, dorder, got))
                         first_run[("buffet", eno, cap)] = got
@@ -1136,6 +1210,7 @@ def _run_model_case(case, mon, tmp, files=None, tagx=""):
                             mon.check(g == x, keyfn("buffetTraffic", kind, "count", stg),
                                       f"buffetTraffic evict-on {evict} capacity {cap_bits!r}: tensor {t} {access} = {g} bits, the "
                                       f"window rule gives {x} bits (line {line_sz} bits, bindings listed {listing})")
+                    hist[0] = ""
                     if full and rw_bound and capform % 3 == 0 and cap == case["buffet"]["caps"][-1] \
                             and evict is case["buffet"]["evict"][-1]:
                         _dictionary_order_again(mon, "buffetTraffic", Traffic.buffetTraffic, bindings, ctx, place, xfirst,
@@ -1179,6 +1254,9 @@ def _run_model_case(case, mon, tmp, files=None, tagx=""):
                 if cap_lines is None:
                     cap_lines = inf_bits // line_sz         # room for every access of the run
                 tdn, dorder = tdict(0)
+                hist[0] = ""
+                if hrng is not None and full and cj in (0, 2):
+                    history(Traffic.cacheTraffic, {})
                 ok, res = _call(mon, "cacheTraffic",
                                 lambda: Traffic.cacheTraffic(bindings, ctx["formats"], dict(tdn), cap_bits,
                                                              line_sz, loop_ranks=loop_ranks()), tmp, ctx["keep"])
@@ -1198,13 +1276,14 @@ def _run_model_case(case, mon, tmp, files=None, tagx=""):
                         cls = ":staging-lines-beside-another-binding"
                     else:
                         cls = tag
-                    mon.violation(f"cacheTraffic:raised:{type(res).__name__}{cls}",
+                    mon.violation(f"cacheTraffic:raised:{type(res).__name__}{cls}{hist[0]}",
                                   f"cacheTraffic raised {type(res).__name__}: {res} (capacity {cap_bits!r} bits = "
                                   f"{cap_lines} lines, bindings listed {listing})")
                     prev = None
+                    hist[0] = ""
                     continue
                 got, overflows = res
-                got = _settle_unbound(mon, "cacheTraffic", got, ctx, tag)
+                got = _settle_unbound(mon, "cacheTraffic", got, ctx, tag + hist[0])
                 if full:
                     results.append(("cache", cap_lines if cap is not None else None, cap_bits, dorder, got))
                     first_run[("cache", cap)] = got
@@ -1230,9 +1309,10 @@ def _run_model_case(case, mon, tmp, files=None, tagx=""):
                     mon.count("optimum_checked")
                     if same_rank:
                         mon.count("same_rank_optimum_checked")
-                    mon.check(total == best * line_sz, f"cacheTraffic:fills:not-optimal{tag}",
+                    mon.check(total == best * line_sz, f"cacheTraffic:fills:not-optimal{tag}{hist[0]}",
                               f"cacheTraffic capacity {cap_bits!r} bits = {cap_lines} lines charged {total} bits of fills; the optimum over all "
                               f"replacement decisions is {best} fills x {line_sz} (bindings listed {listing})")
+                hist[0] = ""
                 if full and rw_bound and capform % 3 == 0 and cj == 1:
                     _dictionary_order_again(mon, "cacheTraffic", Traffic.cacheTraffic, bindings, ctx, place, xfirst,
                                             dorder, cap_bits, line_sz, loop_ranks(), (got, overflows), tmp, tag)
